@@ -1,5 +1,464 @@
-import ChumskyModel.Model.Text
+/-
+  Proofs/C14.lean — property C14: the text parsers recognise exactly their documented languages.
+
+  The text parsers are transcribed in `Model/Text.lean` as position functions over the `Char` class record (`CC`), one per
+  parser of `text.rs`; the correspondence check of C14 runs those functions against the real parsers on every string of the
+  generator. The theorems below are about those functions, for EVERY token list (no length bound), every radix and every
+  class record unless an instance is named.
+
+  "accepts s" = the parser, started at position 0 of `s`, ends at `s.length` (what `parse` demands: the parser followed
+  by end-of-input).  The documented languages are stated as plain list predicates.
+-/
+import ChumskyModel.Proofs.Lemmas.TextLang
+
 namespace Chumsky
-theorem placeholder_C14 : True := trivial
-#print axioms placeholder_C14
+open Text
+
+/-! ### the documented languages -/
+
+/-- one or more radix-`r` digits -/
+def DigitsLang (cc : CC) (r : Nat) (s : List Nat) : Prop := s ≠ [] ∧ s.all (cc.isDigit r) = true
+/-- a single zero, or a non-empty digit string whose first digit is not zero -/
+def IntLang (cc : CC) (r : Nat) (s : List Nat) : Prop :=
+  s = [cc.digitZero] ∨ (∃ c cs, s = c :: cs ∧ c ≠ cc.digitZero ∧ cc.isDigit r c = true ∧ cs.all (cc.isDigit r) = true)
+/-- `start cont*` -/
+def IdentLang (start cont : Nat → Bool) (s : List Nat) : Prop := ∃ c cs, s = c :: cs ∧ start c = true ∧ cs.all cont = true
+
+/-! ### whitespace -/
+
+/-- `whitespace()` / `inline_whitespace()` never fail, consume a run of (inline) whitespace and stop at the first other character -/
+theorem c14_whitespace_run (cc : CC) (toks : List Nat) (pos : Nat) :
+    ∃ e, whitespace cc toks pos = some e ∧ pos ≤ e ∧
+      ((toks.drop pos).take (e - pos)).all cc.isWs = true ∧ (∀ c, toks[e]? = some c → pos ≤ toks.length → cc.isWs c = false) := by
+  refine ⟨_, rfl, skip_ge _ _ _, ?_, ?_⟩
+  · rw [skip_eq]; simp only [Nat.add_sub_cancel_left]; exact runLen_all _ _
+  · intro c hc hp
+    rw [skip_eq] at hc
+    apply runLen_stop cc.isWs (toks.drop pos) c
+    rw [List.getElem?_drop]; exact hc
+
+theorem c14_whitespace_accepts (cc : CC) (s : List Nat) :
+    whitespace cc s 0 = some s.length ↔ s.all cc.isWs = true := by
+  simp only [whitespace, skip_eq, List.drop_zero, Nat.zero_add, Option.some.injEq]
+  exact runLen_eq_length_iff _ _
+
+theorem c14_inline_whitespace_accepts (cc : CC) (s : List Nat) :
+    inlineWhitespace cc s 0 = some s.length ↔ s.all cc.isInlineWs = true := by
+  simp only [inlineWhitespace, skip_eq, List.drop_zero, Nat.zero_add, Option.some.injEq]
+  exact runLen_eq_length_iff _ _
+
+/-! ### digits / int -/
+
+theorem c14_digits_accepts (cc : CC) (r : Nat) (s : List Nat) :
+    digits cc r s 0 = some s.length ↔ DigitsLang cc r s := by
+  unfold DigitsLang digits
+  cases s with
+  | nil => simp
+  | cons c cs =>
+    simp only [List.getElem?_cons_zero, List.length_cons, ne_eq, reduceCtorEq, not_false_eq_true, true_and,
+      List.all_cons, Bool.and_eq_true]
+    by_cases hd : cc.isDigit r c
+    · simp only [hd, if_true, Option.some.injEq, true_and, skip_eq, List.drop_succ_cons, List.drop_zero]
+      rw [← runLen_eq_length_iff]; omega
+    · simp [hd]
+
+theorem c14_int_accepts (cc : CC) (r : Nat) (s : List Nat) :
+    int cc r s 0 = some s.length ↔ IntLang cc r s := by
+  unfold IntLang int
+  cases s with
+  | nil => simp
+  | cons c cs =>
+    simp only [List.getElem?_cons_zero, List.length_cons]
+    by_cases hz : c = cc.digitZero
+    · subst hz
+      simp only [bne_self_eq_false, Bool.and_false, Bool.false_eq_true, if_false, beq_self_eq_true, if_true,
+        Option.some.injEq, Nat.zero_add]
+      constructor
+      · intro h; left
+        have : cs = [] := by cases cs with | nil => rfl | cons _ _ => simp at h
+        rw [this]
+      · rintro (h | ⟨c', cs', h1, h2, _⟩)
+        · have : cs = [] := by simpa using h
+          simp [this]
+        · simp only [List.cons.injEq] at h1; exact absurd h1.1.symm h2
+    · have hne : (c != cc.digitZero) = true := by simpa using hz
+      have hbeq : (c == cc.digitZero) = false := by simpa using hz
+      by_cases hd : cc.isDigit r c
+      · simp only [hd, hne, Bool.and_self, if_true, Option.some.injEq, skip_eq, List.drop_succ_cons, List.drop_zero]
+        constructor
+        · intro h; right
+          refine ⟨c, cs, rfl, hz, hd, ?_⟩
+          rw [← runLen_eq_length_iff]; omega
+        · rintro (h | ⟨c', cs', h1, _, _, h4⟩)
+          · simp only [List.cons.injEq] at h; exact absurd h.1 hz
+          · simp only [List.cons.injEq] at h1
+            rw [← h1.2] at h4
+            rw [(runLen_eq_length_iff _ _).mpr h4]; omega
+      · simp only [hd, Bool.false_and, Bool.false_eq_true, if_false, hbeq]
+        constructor
+        · intro h; simp at h
+        · rintro (h | ⟨c', cs', h1, _, h3, _⟩)
+          · simp only [List.cons.injEq] at h; exact absurd h.1 hz
+          · simp only [List.cons.injEq] at h1; rw [← h1.1] at h3; exact absurd h3 hd
+
+/-- no superfluous leading zero: after a leading zero `int` stops at once, so `"0d…"` is never accepted -/
+theorem c14_int_leading_zero (cc : CC) (r : Nat) (pos : Nat) (toks : List Nat)
+    (h : toks[pos]? = some cc.digitZero) : int cc r toks pos = some (pos + 1) := by
+  simp [int, h]
+
+/-- `int` and `digits` are greedy: they stop only at a non-digit -/
+theorem c14_digits_maximal (cc : CC) (r : Nat) (toks : List Nat) (pos e c : Nat)
+    (h : digits cc r toks pos = some e) (hc : toks[e]? = some c) : cc.isDigit r c = false := by
+  unfold digits at h
+  cases hg : toks[pos]? with
+  | none => simp [hg] at h
+  | some d =>
+    simp only [hg] at h
+    by_cases hd : cc.isDigit r d
+    · simp only [hd, if_true, Option.some.injEq] at h
+      rw [skip_eq] at h
+      apply runLen_stop (cc.isDigit r) (toks.drop (pos + 1)) c
+      rw [List.getElem?_drop, h]; exact hc
+    · simp [hd] at h
+
+/-! ### identifiers and keywords -/
+
+theorem identLike_accepts (start cont : Nat → Bool) (s : List Nat) :
+    (match s[0]? with
+     | some c => if start c then some (skip cont s (0 + 1)) else none
+     | none => none) = some s.length ↔ IdentLang start cont s := by
+  unfold IdentLang
+  cases s with
+  | nil => simp
+  | cons c cs =>
+    simp only [List.getElem?_cons_zero, List.length_cons, List.cons.injEq]
+    by_cases hs : start c
+    · simp only [hs, if_true, Option.some.injEq, skip_eq, Nat.zero_add, List.drop_succ_cons, List.drop_zero]
+      constructor
+      · intro h; exact ⟨c, cs, ⟨rfl, rfl⟩, hs, (runLen_eq_length_iff _ _).mp (by omega)⟩
+      · rintro ⟨c', cs', ⟨_, h2⟩, _, h4⟩
+        rw [← h2] at h4; rw [(runLen_eq_length_iff _ _).mpr h4]; omega
+    · simp only [hs, Bool.false_eq_true, if_false, reduceCtorEq, false_iff]
+      rintro ⟨c', cs', ⟨h1, _⟩, h3, _⟩
+      rw [← h1] at h3; exact absurd h3 hs
+
+/-- `ascii::ident` accepts exactly `[A-Za-z_][A-Za-z0-9_]*` -/
+theorem c14_ascii_ident_accepts (cc : CC) (s : List Nat) :
+    asciiIdent cc s 0 = some s.length ↔ IdentLang (isAsciiIdentStart cc) (isAsciiIdentCont cc) s :=
+  identLike_accepts _ _ s
+
+/-- `unicode::ident` accepts exactly `(XID_Start | _) XID_Continue*` -/
+theorem c14_unicode_ident_accepts (cc : CC) (s : List Nat) :
+    unicodeIdent cc s 0 = some s.length ↔ IdentLang cc.isIdentStart cc.isIdentCont s :=
+  identLike_accepts _ _ s
+
+/-- for `char` the ASCII identifier classes are literally `[A-Za-z_]` and `[A-Za-z0-9_]` -/
+theorem c14_ascii_classes_char (c : Nat) :
+    isAsciiIdentStart charCC c = (decide (c < 128) && (asciiAlpha c || c == 95)) ∧
+    isAsciiIdentCont charCC c = (decide (c < 128) && (asciiAlnum c || c == 95)) := by
+  unfold isAsciiIdentStart isAsciiIdentCont charCC
+  by_cases h : c < 128 <;> simp [h]
+
+/-- identifiers are matched greedily (maximal munch): the character after an identifier is not an identifier character -/
+theorem identLike_maximal (start cont : Nat → Bool) (toks : List Nat) (pos e c : Nat)
+    (h : (match toks[pos]? with
+          | some c => if start c then some (skip cont toks (pos + 1)) else none
+          | none => none) = some e) (hc : toks[e]? = some c) : cont c = false := by
+  cases hg : toks[pos]? with
+  | none => simp [hg] at h
+  | some d =>
+    simp only [hg] at h
+    by_cases hd : start d
+    · simp only [hd, if_true, Option.some.injEq] at h
+      rw [skip_eq] at h
+      apply runLen_stop cont (toks.drop (pos + 1)) c
+      rw [List.getElem?_drop, h]; exact hc
+    · simp [hd] at h
+
+/-- `keyword(k)`: the identifier found at the position IS `k` — so a keyword is never accepted as a proper prefix of a
+    longer identifier (the character after the match cannot continue an identifier), and the match has `k`'s length -/
+theorem c14_keyword_exact (cc : CC) (k toks : List Nat) (pos e : Nat)
+    (h : asciiKeyword cc k toks pos = some e) :
+    asciiIdent cc toks pos = some e ∧ (toks.drop pos).take (e - pos) = k ∧
+      (∀ c, toks[e]? = some c → isAsciiIdentCont cc c = false) := by
+  unfold asciiKeyword keywordOf at h
+  cases hi : asciiIdent cc toks pos with
+  | none => simp [hi] at h
+  | some e' =>
+    simp only [hi] at h
+    by_cases hk : (toks.drop pos).take (e' - pos) == k
+    · simp only [hk, if_true, Option.some.injEq] at h
+      subst h
+      refine ⟨rfl, by simpa using hk, fun c hc => ?_⟩
+      exact identLike_maximal _ _ toks pos e' c hi hc
+    · simp [hk] at h
+
+theorem c14_unicode_keyword_exact (cc : CC) (k toks : List Nat) (pos e : Nat)
+    (h : unicodeKeyword cc k toks pos = some e) :
+    unicodeIdent cc toks pos = some e ∧ (toks.drop pos).take (e - pos) = k ∧
+      (∀ c, toks[e]? = some c → cc.isIdentCont c = false) := by
+  unfold unicodeKeyword keywordOf at h
+  cases hi : unicodeIdent cc toks pos with
+  | none => simp [hi] at h
+  | some e' =>
+    simp only [hi] at h
+    by_cases hk : (toks.drop pos).take (e' - pos) == k
+    · simp only [hk, if_true, Option.some.injEq] at h
+      subst h
+      refine ⟨rfl, by simpa using hk, fun c hc => ?_⟩
+      exact identLike_maximal _ _ toks pos e' c hi hc
+    · simp [hk] at h
+
+/-- `keyword(k)` accepts a whole string iff the string is `k` and `k` is an identifier -/
+theorem c14_keyword_accepts (cc : CC) (k s : List Nat) :
+    asciiKeyword cc k s 0 = some s.length ↔ s = k ∧ IdentLang (isAsciiIdentStart cc) (isAsciiIdentCont cc) s := by
+  rw [← c14_ascii_ident_accepts]
+  unfold asciiKeyword keywordOf
+  cases hi : asciiIdent cc s 0 with
+  | none => simp
+  | some e =>
+    simp only [List.drop_zero, Nat.sub_zero, Option.some.injEq]
+    by_cases hk : (s.take e == k)
+    · simp only [hk, if_true, Option.some.injEq]
+      constructor
+      · intro h; subst h; simp at hk; exact ⟨hk, rfl⟩
+      · rintro ⟨_, h⟩; exact h
+    · simp only [hk, Bool.false_eq_true, if_false, reduceCtorEq, false_iff]
+      rintro ⟨h1, h2⟩; subst h2; simp at hk; exact hk h1
+
+theorem c14_unicode_keyword_accepts (cc : CC) (k s : List Nat) :
+    unicodeKeyword cc k s 0 = some s.length ↔ s = k ∧ IdentLang cc.isIdentStart cc.isIdentCont s := by
+  rw [← c14_unicode_ident_accepts]
+  unfold unicodeKeyword keywordOf
+  cases hi : unicodeIdent cc s 0 with
+  | none => simp
+  | some e =>
+    simp only [List.drop_zero, Nat.sub_zero, Option.some.injEq]
+    by_cases hk : (s.take e == k)
+    · simp only [hk, if_true, Option.some.injEq]
+      constructor
+      · intro h; subst h; simp at hk; exact ⟨hk, rfl⟩
+      · rintro ⟨_, h⟩; exact h
+    · simp only [hk, Bool.false_eq_true, if_false, reduceCtorEq, false_iff]
+      rintro ⟨h1, h2⟩; subst h2; simp at hk; exact hk h1
+
+/-! ### newline -/
+
+/-- `newline` on `&str` accepts exactly the eight documented terminators (CR LF as one unit) -/
+theorem c14_newline_accepts (s : List Nat) :
+    newline charCC s 0 = some s.length ↔
+      s ∈ [[13, 10], [10], [13], [11], [12], [0x85], [0x2028], [0x2029]] := by
+  unfold newline
+  match s with
+  | [] => simp
+  | [c] =>
+    simp only [List.getElem?_cons_zero, List.length_cons, List.length_nil, Nat.zero_add]
+    by_cases h13 : c = 13
+    · subst h13; simp [charCC]
+    · have : (charCC.toAscii c == some 13) = false := by
+        unfold charCC; by_cases hlt : c < 128 <;> simp [hlt, h13]
+      simp only [this, Bool.false_eq_true, if_false]
+      by_cases hn : charCC.isNewline c
+      · simp only [hn, if_true, true_iff]
+        simp only [charCC, Bool.or_eq_true, beq_iff_eq] at hn
+        simp only [List.mem_cons, List.cons.injEq, and_true, List.not_mem_nil, or_false]
+        omega
+      · simp only [hn, Bool.false_eq_true, if_false, reduceCtorEq, false_iff]
+        simp only [charCC, Bool.or_eq_true, beq_iff_eq] at hn
+        simp only [List.mem_cons, List.cons.injEq, and_true, List.not_mem_nil, or_false, reduceCtorEq]
+        omega
+  | c :: d :: rest =>
+    simp only [List.getElem?_cons_zero, List.length_cons, Nat.zero_add, List.getElem?_cons_succ]
+    by_cases h13 : c = 13
+    · subst h13
+      by_cases h10 : d = 10
+      · subst h10
+        cases rest with
+        | nil => simp [charCC]
+        | cons x xs => simp [charCC]
+      · have : (charCC.toAscii d == some 10) = false := by
+          unfold charCC; by_cases hlt : d < 128 <;> simp [hlt, h10]
+        simp [charCC, h10]
+    · have : (charCC.toAscii c == some 13) = false := by
+        unfold charCC; by_cases hlt : c < 128 <;> simp [hlt, h13]
+      simp only [this, Bool.false_eq_true, if_false]
+      have hlen : ¬ (0 + 1 = rest.length + 1 + 1) := by omega
+      by_cases hn : charCC.isNewline c
+      · simp [hn, h13]
+      · simp [hn, h13]
+
+/-- CR LF is one line terminator, on both instances -/
+theorem c14_crlf_one_unit (cc : CC) (h13 : cc.toAscii 13 = some 13) (h10 : cc.toAscii 10 = some 10) (rest : List Nat) :
+    newline cc (13 :: 10 :: rest) 0 = some 2 := by
+  simp [newline, h13, h10]
+
+/-! ### padded -/
+
+/-- `p.padded()` skips whitespace only: what it skips before and after `p` are runs of whitespace, `p` starts exactly where the
+    leading run ends, and the trailing run is maximal -/
+theorem c14_padded (cc : CC) (p : List Nat → Nat → Option Nat) (toks : List Nat) (pos s e f : Nat)
+    (h : padded cc p toks pos = some (s, e, f)) :
+    s = skip cc.isWs toks pos ∧ p toks s = some e ∧ f = skip cc.isWs toks e ∧
+      ((toks.drop pos).take (s - pos)).all cc.isWs = true ∧ ((toks.drop e).take (f - e)).all cc.isWs = true := by
+  unfold padded at h
+  simp only at h
+  cases hp : p toks (skip cc.isWs toks pos) with
+  | none => simp [hp] at h
+  | some e' =>
+    simp only [hp, Option.some.injEq, Prod.mk.injEq] at h
+    obtain ⟨h1, h2, h3⟩ := h
+    subst h1 h2 h3
+    refine ⟨rfl, hp, rfl, ?_, ?_⟩
+    · rw [skip_eq]; simp only [Nat.add_sub_cancel_left]; exact runLen_all _ _
+    · rw [skip_eq]; simp only [Nat.add_sub_cancel_left]; exact runLen_all _ _
+
+/-- conversely `ws* m ws*` is accepted whenever `p` matches `m` there and `m` does not begin with whitespace -/
+theorem c14_padded_accepts (cc : CC) (p : List Nat → Nat → Option Nat) (w1 m w2 : List Nat)
+    (hw1 : w1.all cc.isWs = true) (hw2 : w2.all cc.isWs = true)
+    (hm : ∀ c, (m ++ w2)[0]? = some c → m ≠ [] ∧ cc.isWs c = false)
+    (hp : p (w1 ++ m ++ w2) w1.length = some (w1.length + m.length)) :
+    padded cc p (w1 ++ m ++ w2) 0 = some (w1.length, w1.length + m.length, (w1 ++ m ++ w2).length) := by
+  have hs : skip cc.isWs (w1 ++ m ++ w2) 0 = w1.length := by
+    rw [skip_eq, List.drop_zero, List.append_assoc, runLen_append_of_all _ _ _ hw1]
+    have : runLen cc.isWs (m ++ w2) = 0 := by
+      cases hmw : m ++ w2 with
+      | nil => rfl
+      | cons c cs =>
+        have := (hm c (by simp [hmw])).2
+        simp [runLen, this]
+    omega
+  have he : skip cc.isWs (w1 ++ m ++ w2) (w1.length + m.length) = (w1 ++ m ++ w2).length := by
+    rw [skip_eq]
+    have : (w1 ++ m ++ w2).drop (w1.length + m.length) = w2 := by
+      rw [← List.length_append]; simp
+    rw [this, (runLen_eq_length_iff _ _).mpr hw2]; simp; omega
+  unfold padded
+  simp only [hs, hp, he]
+
+/-! ### the slice returned is the matched range; agreement of the two instances on ASCII text -/
+
+/-- every text parser returns an end position at or after its start (the slice `[start, end)` is well formed) -/
+theorem c14_end_ge_start (cc : CC) (r : Nat) (toks : List Nat) (pos e : Nat) :
+    (int cc r toks pos = some e → pos < e) ∧ (digits cc r toks pos = some e → pos < e) ∧
+    (asciiIdent cc toks pos = some e → pos < e) ∧ (unicodeIdent cc toks pos = some e → pos < e) ∧
+    (newline cc toks pos = some e → pos < e) := by
+  refine ⟨?_, ?_, ?_, ?_, ?_⟩
+  · unfold int; cases toks[pos]? with
+    | none => simp
+    | some c =>
+      simp only
+      split
+      · intro h; have := skip_ge (cc.isDigit r) toks (pos + 1); simp at h; omega
+      · split <;> simp <;> omega
+  · unfold digits; cases toks[pos]? with
+    | none => simp
+    | some c =>
+      simp only; split
+      · intro h; have := skip_ge (cc.isDigit r) toks (pos + 1); simp at h; omega
+      · simp
+  · unfold asciiIdent; cases toks[pos]? with
+    | none => simp
+    | some c =>
+      simp only; split
+      · intro h; have := skip_ge (isAsciiIdentCont cc) toks (pos + 1); simp at h; omega
+      · simp
+  · unfold unicodeIdent; cases toks[pos]? with
+    | none => simp
+    | some c =>
+      simp only; split
+      · intro h; have := skip_ge cc.isIdentCont toks (pos + 1); simp at h; omega
+      · simp
+  · unfold newline; cases toks[pos]? with
+    | none => simp
+    | some c =>
+      simp only
+      split
+      · cases toks[pos + 1]? with
+        | none => simp; omega
+        | some d => simp only; split <;> simp <;> omega
+      · split <;> simp <;> omega
+
+/-- the class records of `char` and `u8` agree on every ASCII code point (decided over all 128, every radix) -/
+theorem c14_classes_agree_on_ascii (c : Nat) (hc : c < 128) :
+    charCC.isWs c = u8CC.isWs c ∧ charCC.isInlineWs c = u8CC.isInlineWs c ∧ charCC.isNewline c = u8CC.isNewline c ∧
+    (∀ r, charCC.isDigit r c = u8CC.isDigit r c) ∧ charCC.isIdentStart c = u8CC.isIdentStart c ∧
+    charCC.isIdentCont c = u8CC.isIdentCont c ∧ charCC.toAscii c = u8CC.toAscii c ∧ charCC.digitZero = u8CC.digitZero := by
+  refine ⟨?_, rfl, ?_, fun _ => rfl, rfl, rfl, by simp [charCC, u8CC, hc], rfl⟩
+  · have : ∀ c : Fin 128, charCC.isWs c.val = u8CC.isWs c.val := by decide +kernel
+    exact this ⟨c, hc⟩
+  · have : ∀ c : Fin 128, charCC.isNewline c.val = u8CC.isNewline c.val := by decide +kernel
+    exact this ⟨c, hc⟩
+
+/-- hence on ASCII text every text parser gives the same result on `&str` and on `&[u8]` -/
+theorem c14_ascii_agree (toks : List Nat) (hascii : ∀ c ∈ toks, c < 128) (r pos : Nat) (k : List Nat) :
+    whitespace charCC toks pos = whitespace u8CC toks pos ∧
+    inlineWhitespace charCC toks pos = inlineWhitespace u8CC toks pos ∧
+    digits charCC r toks pos = digits u8CC r toks pos ∧
+    int charCC r toks pos = int u8CC r toks pos ∧
+    asciiIdent charCC toks pos = asciiIdent u8CC toks pos ∧
+    unicodeIdent charCC toks pos = unicodeIdent u8CC toks pos ∧
+    asciiKeyword charCC k toks pos = asciiKeyword u8CC k toks pos ∧
+    unicodeKeyword charCC k toks pos = unicodeKeyword u8CC k toks pos ∧
+    newline charCC toks pos = newline u8CC toks pos ∧
+    padded charCC (int charCC r) toks pos = padded u8CC (int u8CC r) toks pos := by
+  have hws : ∀ p, skip charCC.isWs toks p = skip u8CC.isWs toks p :=
+    fun p => skip_congr _ _ toks p (fun c hc => (c14_classes_agree_on_ascii c (hascii c hc)).1)
+  have hasc : ∀ c ∈ toks, charCC.toAscii c = u8CC.toAscii c :=
+    fun c hc => (c14_classes_agree_on_ascii c (hascii c hc)).2.2.2.2.2.2.1
+  have hcont : ∀ p, skip (isAsciiIdentCont charCC) toks p = skip (isAsciiIdentCont u8CC) toks p :=
+    fun p => skip_congr _ _ toks p (fun c hc => by unfold isAsciiIdentCont; rw [hasc c hc])
+  have hai : asciiIdent charCC toks pos = asciiIdent u8CC toks pos := by
+    unfold asciiIdent
+    cases hg : toks[pos]? with
+    | none => rfl
+    | some c =>
+      have hm : c ∈ toks := List.mem_of_getElem? hg
+      simp only [isAsciiIdentStart, hasc c hm, hcont]
+      all_goals rfl
+  have hint : ∀ p, int charCC r toks p = int u8CC r toks p := fun p => rfl
+  refine ⟨by simp [whitespace, hws], rfl, rfl, rfl, hai, rfl, ?_, rfl, ?_, ?_⟩
+  · unfold asciiKeyword keywordOf; rw [hai]
+  · unfold newline
+    cases hg : toks[pos]? with
+    | none => rfl
+    | some c =>
+      have hm : c ∈ toks := List.mem_of_getElem? hg
+      simp only [hasc c hm, (c14_classes_agree_on_ascii c (hascii c hm)).2.2.1]
+      cases hg2 : toks[pos + 1]? with
+      | none => rfl
+      | some d => simp only [hasc d (List.mem_of_getElem? hg2)]
+  · unfold padded; simp only [hws, hint]
+
+/-! ### non-vacuity: concrete members and non-members, evaluated by the kernel -/
+
+example : int charCC 10 [49, 52, 53, 50] 0 = some 4 := by decide
+example : int charCC 10 [48, 52] 0 = some 1 := by decide                 -- "04": stops after the zero, so `parse` rejects
+example : IntLang charCC 16 [50, 65] := Or.inr ⟨50, [65], rfl, by decide, by decide, by decide⟩
+example : asciiKeyword charCC [105, 102] [105, 102, 120] 0 = none := by decide   -- "if" is not accepted in "ifx"
+example : newline charCC [13, 10, 97] 0 = some 2 := by decide
+example : padded charCC (int charCC 10) [32, 49, 50, 32, 10] 0 = some (1, 3, 5) := by decide
+example : whitespace u8CC [11, 32] 0 = some 2 := by decide               -- vertical tab (the repaired D11)
+
+#print axioms c14_whitespace_run
+#print axioms c14_whitespace_accepts
+#print axioms c14_inline_whitespace_accepts
+#print axioms c14_digits_accepts
+#print axioms c14_int_accepts
+#print axioms c14_int_leading_zero
+#print axioms c14_digits_maximal
+#print axioms c14_ascii_ident_accepts
+#print axioms c14_unicode_ident_accepts
+#print axioms c14_ascii_classes_char
+#print axioms c14_keyword_exact
+#print axioms c14_unicode_keyword_exact
+#print axioms c14_keyword_accepts
+#print axioms c14_unicode_keyword_accepts
+#print axioms c14_newline_accepts
+#print axioms c14_crlf_one_unit
+#print axioms c14_padded
+#print axioms c14_padded_accepts
+#print axioms c14_end_ge_start
+#print axioms c14_classes_agree_on_ascii
+#print axioms c14_ascii_agree
+
 end Chumsky
